@@ -145,7 +145,8 @@ def replay_one(args):
     tr['errors'] = errors
     for im in imports:
         if im['generated']:
-            tr['imports'].append({'by': im['by'], 'from': im['from'], 'sym': im['sym'], 'generated': True, 'exports': sorted(set(exports.get(im['from'], [])))})
+            tr['imports'].append({'by': im['by'], 'from': im['from'], 'sym': im['sym'], 'generated': True, 'exports': sorted(set(exports.get(im['from'], []))),
+                                  'from_loaded': ['end', im['from']] in events})
     for n in names:
         doc = json.loads(pj.written[n])
         loaded = n not in errors and ['end', n] in events
@@ -212,8 +213,20 @@ def run(out, prop, tier, seed, **kw):
     fam += [('refs', e) for e in r4.exports]
     out.extra['scenarios_available'] = len(fam)
     rnd.shuffle(fam)
-    n = 300 if tier == 'quick' else 12000
-    jobs = [(f, sc, seed + i, scratch) for i, (f, sc) in enumerate(fam[:n])]
+    n = 360 if tier == 'quick' else 12000
+    # stratified: the same number of scenarios from every (family, aspect / shape) stratum, round robin
+    strata = {}
+    for f, sc in fam:
+        key = (f, sc.get('aspect', ''), (sc.get('sc') or {}).get('second', '') if isinstance(sc.get('sc'), dict) else '',
+               len(sc.get('nodes', [])) if f == 'oidtree' else 0)
+        strata.setdefault(key, []).append((f, sc))
+    picked, keys = [], sorted(strata, key=str)
+    while len(picked) < n and any(strata[k] for k in keys):
+        for k in keys:
+            if strata[k] and len(picked) < n:
+                picked.append(strata[k].pop())
+    out.extra['strata'] = len(keys)
+    jobs = [(f, sc, seed + i, scratch) for i, (f, sc) in enumerate(picked)]
     results = par.pmap(replay_one, jobs, chunk=4)
     traces = []
     for i, r in enumerate(results):
